@@ -519,6 +519,9 @@ import verus_lock  # noqa: E402
 VERUS["lock_nopoison"] = dict(props=["C04", "C05"], builder=verus_lock.build, fns=[(INJ, "lock")], expect_verified=1,
                               shared={"C04.lock.guard-of-this-mutex": ["C05"], "C05.lock.never-panics": ["C04"]})
 
+VERUS["lock_acquire"] = dict(props=["C04", "C05"], builder=verus_lock.build_acquire, fns=[(INJ, "lock"), (INJ, "new"), (INJ, "prevent")], expect_verified=3,
+                             shared={"C04.lock.no-self-deadlock": ["C05"], "C05.acquire.never-panics": ["C04"]})
+
 H("c15_entry_macos", module="verif_arm64.rs", variant="macos", props=["C15", "C11", "C12", "C03"], fns=[(A64P, "apply_branch_patch"), (A64G, "maybe_emit_long_jump")], covers=["COVER:end", "COVER:long-form", "COVER:short-form"],
   shared={"C15.entry.macos.lands": ["C11"]})
 
